@@ -145,6 +145,40 @@ theorem insert_panic (i : Nat) (hc : c.lock n) (he : e.lock 1) (hs : c.same e) :
     rw [hrun]
     simp [this, dropWhole, dropRows, hr1, hr2]
 
+/-- `extend` / `FromIterator` (the push loop): no destructor runs -/
+theorem extend_none : ∀ (es : List Cols) (c : Cols), (Model.extend c es).ev.dropT = []
+  | [], c => rfl
+  | e :: es, c => by
+    simp only [Model.extend]
+    split
+    · rfl
+    · exact extend_none es _
+
+/-- **`resize`** (element-wise since /repo 72750cf): growing runs no destructor; shrinking runs it
+    for exactly the rows `Vec<T>::resize` destroys — the discarded suffix and the value -/
+theorem resize (dr : Bool) (k : Nat) (hc : c.lock n) (he : e.lock 1) :
+    (Model.resize dr c k e).ev.dropT.Perm (Spec.resize dr c.rows k e.rows).ev.dropT := by
+  have hlen := rows_len n c hc
+  unfold Model.resize Spec.resize
+  rw [firstLen_lock c n hc, hlen]
+  by_cases hk : k > n
+  · have hk' : ¬ k ≤ n := by omega
+    simp only [hk, hk', ↓reduceIte]
+    exact List.Perm.refl _
+  · have hk' : k ≤ n := by omega
+    simp only [hk, hk', ↓reduceIte]
+    have ht := truncate dr k hc
+    show ((Model.truncate dr c k).ev.dropT ++ (dropWhole dr e).dropT).Perm _
+    obtain ⟨r, hr1, hr2⟩ := firstLeaf_one e he
+    cases dr with
+    | true =>
+      simp only [Spec.truncate, dropRows, ↓reduceIte] at ht
+      simp only [dropRows, dropWhole, ↓reduceIte, hr1, hr2, List.map_append, List.map_cons, List.map_nil]
+      exact List.Perm.append_right _ ht
+    | false =>
+      simp only [Spec.truncate, dropRows, Bool.false_eq_true, ↓reduceIte, List.perm_nil] at ht
+      simp [dropRows, dropWhole, ht]
+
 /-- handing an element back never runs its destructor -/
 theorem pop_none : (Model.pop c).ev.dropT = [] := by
   rcases pop_cases c with h | ⟨_, h⟩ | ⟨_, h⟩ <;> rw [h] <;> rfl
